@@ -145,6 +145,19 @@ func writeEvidence(path, prop, tier string, seed int, e *Engine, vcs []*VC, obls
 			"ledger_commit":            led.Commit,
 		},
 	}
+	if boundedForEvidence != nil {
+		ev["coverage"].(map[string]interface{})["bounded_stand_in"] = map[string]interface{}{
+			"label":               "bounded: runtime check of the same statement on the real code over an enumerated space; never counted in obligations/discharged",
+			"harness":             boundedForEvidence.Harness,
+			"bound":               boundedForEvidence.Bound,
+			"evaluations":         boundedForEvidence.Cases,
+			"distinct_nontrivial": boundedForEvidence.Distinct,
+			"failures":            len(boundedForEvidence.Failures),
+			"known_findings":      boundedForEvidence.Known,
+			"samples":             boundedForEvidence.Samples,
+			"wall_s":              boundedForEvidence.WallS,
+		}
+	}
 	data, _ := json.MarshalIndent(ev, "", " ")
 	os.WriteFile(path, data, 0o644)
 }
